@@ -1,4 +1,4 @@
-"""Behaviour beyond the listed properties (DESIGN.md 10.7): specifications that cover the rest of the library.
+"""Behaviour beyond the listed properties (DESIGN.md 10.8): specifications that cover the rest of the library.
 
 X01 show: rlib_show (Show for integers / floats / strings / containers / tuples / show_struct!, ShowPretty for matrices
 and maps), rlib_treap's Debug and TreePrinter, rlib_io's out!/outln! macros -- recorded from the real code and judged
